@@ -6,6 +6,8 @@ Event kinds written by harness/vh-pure/src/bin/c10.rs (and c11.rs for "cont"):
   {"k":"cont", "kind": "addr"|"ufvk"|"uivk", "s", "net", "items"}  container string produced by the Rust encoder
   {"k":"parse","api": "zaddr"|"ufvk"|"uivk", "s", "res": null | {...}}  what the Rust parser made of a string
   {"k":"f4",   "len", "seed", "out" | "out_b2b256"}           F4Jumble output for the shared input stream
+  {"k":"b32",  "s", "hrp", "variant", "data"}                 Bech32 key string (C11: Sapling ExtSK / ExtFVK / address)
+  {"k":"b58",  "s", "data"}                                   Base58Check key string (C11: transparent secret key)
 
 Returns {"counters": {...}, "violations": [(signature, detail, replay), ...]} (picklable: it runs in
 a worker process, one per shard log).
@@ -14,7 +16,7 @@ import hashlib
 import json
 import re
 
-from . import f4jumble, zip316
+from . import base58, bech32, f4jumble, zip316
 
 
 def _norm_items(items):
@@ -146,6 +148,28 @@ def check_events(path, prefix="C10"):
                 count("py_checked_f4jumble_bytes", n)
                 if n >= 1 << 20:
                     count("py_checked_f4jumble_outputs_1M_or_longer")
+            elif k == "b32":
+                try:
+                    hrp, payload, variant, canon = bech32.decode_bytes(ev["s"])
+                    got = (hrp, payload.hex(), variant, canon)
+                except bech32.Bech32Error as e:
+                    got = ("error", str(e))
+                if got != (ev["hrp"], ev["data"], ev["variant"], True):
+                    violation("bech32-string-differs-from-reference:" + ev["hrp"],
+                              "reference decodes %r to %r, expected hrp %s, %s, data %s" % (
+                                  _clip(ev["s"]), got, ev["hrp"], ev["variant"], ev["data"][:80]),
+                              {"event": {"s": _clip(ev["s"]), "hrp": ev["hrp"]}})
+                count("py_checked_bech32_key_strings")
+            elif k == "b58":
+                try:
+                    got = base58.check_decode(ev["s"]).hex()
+                except base58.Base58Error as e:
+                    got = "error: %s" % e
+                if got != ev["data"]:
+                    violation("base58check-string-differs-from-reference",
+                              "reference decodes the string to %s..., expected %s..." % (got[:12], ev["data"][:4]),
+                              {"event": {"len": len(ev["s"])}})
+                count("py_checked_base58_key_strings")
             else:
                 count("py_unknown_event_kind")
     return {"counters": counters, "violations": viol}
